@@ -36,6 +36,11 @@ RewriteClauses(ln, v, o) ==
 Clauses(ln, v, o) ==
   CASE ln.ev = "new"     -> << <<"SizesConsistent", SizesConsistent(ln.net)>> >>
     [] ln.ev = "rewrite" -> RewriteClauses(ln, v, o)
+    \* isometrize / unitize (value changing on purpose): every tensor that carries a left_inds claim afterwards is an
+    \* isometry from those labels to the rest, whatever the method
+    [] ln.ev = "form"    -> << <<"Returns", ln.exc = "">>,
+                              <<"IsoClaimSound", ln.exc = "" => AllTrue(ln.claims_ok)>>,
+                              <<"FormClaimed", ln.exc = "" => ln.nclaims >= 1>> >>
     [] OTHER             -> << <<"UnknownEvent", FALSE>> >>
 
 TInit == l = 1 /\ fails = <<>> /\ val = <<>> /\ outer = {}
